@@ -80,10 +80,17 @@ func c08Raw(c *core.Ctx, in c08Case, key [16]byte, payload []byte, mk func() c08
 			fail("null-mac", fmt.Sprintf("NIA0 MAC is %x", mac))
 			return
 		}
-		// determinism
+		// determinism, also after the caller has overwritten the returned MAC (the result must not be shared state)
+		saved := append([]byte{}, mac...)
+		for i := range mac {
+			mac[i] ^= 0xFF
+		}
 		mac2, _ := security.NASMacCalculate(uint8(in.Alg), key, in.Count, uint8(in.Bearer), uint8(in.Dir), payload)
-		if !bytes.Equal(mac, mac2) {
-			fail("nondeterministic", "two calls give different MACs")
+		if !bytes.Equal(saved, mac2) {
+			fail("result-shared-or-nondeterministic", fmt.Sprintf("a second call returns %x after the caller overwrote the first result %x (returned MACs must be independent values)", mac2, saved))
+		}
+		if !bytes.Equal(payload, orig) {
+			fail("modifies-arguments", "the message was modified")
 		}
 		return
 	}
